@@ -5,6 +5,8 @@ import (
 	"strconv"
 	"strings"
 
+	"github.com/tyler-sommer/stick"
+
 	"verifharness/fw"
 	"verifharness/gen"
 	"verifharness/model"
@@ -75,7 +77,7 @@ func (p *c09) Init(tier string, seed int64) {
 	p.nRand = p.pick(5000, 100000)
 }
 
-func (p *c09) N() int { return p.nEnum + p.nRand + len(c09Long) + c09nSelf }
+func (p *c09) N() int { return p.nEnum + p.nRand + len(c09Long) + c09nSelf + len(c09NameCarriers()) }
 
 // c09Long: chains of many templates ("of any length"): every level overrides the block and calls parent(), every
 // tenth level leaves it alone, every seventh names its parent by an expression.
@@ -351,6 +353,40 @@ func (p *c09) build(i int) (*Program, string, bool) {
 	return prog, fmt.Sprintf("rand/L%d/B%d/lay%d/use%d/%v", L, B, g.layout, g.use, pat), true
 }
 
+// c09NameCarriers: the name handed to block() is a value like any other - a string from the context, a defined string
+// type, a safe value, something with a String method, a capture, a macro's result; the block it names is the same.
+func c09NameCarriers() []gen.Named {
+	return []gen.Named{
+		gen.N("string", func(n string) interface{} { return n }),
+		gen.N("defined string type", func(n string) interface{} { return gen.KeyStr(n) }),
+		gen.N("safe value", func(n string) interface{} { return stick.NewSafeValue(n, "html") }),
+		gen.N("safe value of a defined string", func(n string) interface{} { return stick.NewSafeValue(gen.KeyStr(n), "") }),
+		gen.N("Stringer", func(n string) interface{} { return gen.ValStringer{S: n} }),
+		gen.N("*Stringer", func(n string) interface{} { return &gen.ValStringer{S: n} }),
+		gen.N("nested safe value", func(n string) interface{} { return stick.NewSafeValue(stick.NewSafeValue(n, "js"), "html") }),
+	}
+}
+
+func (p *c09) runNameCarrier(res *fw.Result, j int) {
+	c := c09NameCarriers()[j]
+	mk := c.V.(func(string) interface{})
+	src := map[string]string{
+		"base": "{% for n in sections %}<{{ block(n) }}>{% endfor %}[{% block a %}A0{% endblock %}|{% block b %}B0{% endblock %}|{% block c %}C0{{ block(one) }}{% endblock %}]" +
+			"{% set cap %}{{ 'a' }}{% endset %}({{ block(cap) }})({{ block('' ~ one) }})",
+		"mid":  "{% extends 'base' %}{% block a %}A1({{ parent() }}){% endblock %}",
+		"leaf": "{% extends layout %}{% block b %}B2{% endblock %}",
+	}
+	ctx := map[string]stick.Value{"sections": []stick.Value{mk("a"), mk("b"), mk("a")}, "one": mk("b"), "layout": mk("mid")}
+	want := "<A1(A0)><B2><A1(A0)>[A1(A0)|B2|C0B2](A1(A0))(B2)"
+	env, _ := mon.NewCoreEnv(src)
+	out, err, pan, _ := execNoPanic(env, "leaf", ctx, 0)
+	res.UniqueNT = 1
+	res.AddClass("block-name-carrier")
+	if pan != nil || err != nil || out != want {
+		res.Fail("output", "c09:namecarrier:"+c.Label, fmt.Sprintf("block(name) with the name carried by a %s renders %q (error %v, panic %v), want %q", c.Label, out, err, pan, want), src)
+	}
+}
+
 // c09nSelf: chains in which one template stands at several levels - it names its parent by an expression that says
 // "me again" until a counter, decremented at its top level, runs out. Every level is a level like any other.
 const c09nSelf = 6
@@ -387,6 +423,9 @@ func c09SelfCase(j int) (*Program, string) {
 }
 
 func (p *c09) Describe(i int) interface{} {
+	if i >= p.nEnum+p.nRand+len(c09Long)+c09nSelf {
+		return map[string]interface{}{"kind": "block() named by a carried value", "carrier": c09NameCarriers()[i-p.nEnum-p.nRand-len(c09Long)-c09nSelf].Label}
+	}
 	if i >= p.nEnum+p.nRand+len(c09Long) {
 		prog, sig := c09SelfCase(i - p.nEnum - p.nRand - len(c09Long))
 		d := prog.describe()
@@ -403,6 +442,10 @@ func (p *c09) Describe(i int) interface{} {
 }
 
 func (p *c09) Run(i int) (res fw.Result) {
+	if i >= p.nEnum+p.nRand+len(c09Long)+c09nSelf {
+		p.runNameCarrier(&res, i-p.nEnum-p.nRand-len(c09Long)-c09nSelf)
+		return
+	}
 	if i >= p.nEnum+p.nRand+len(c09Long) {
 		prog, sig := c09SelfCase(i - p.nEnum - p.nRand - len(c09Long))
 		if _, _, ok := modelCase(&res, "c09:"+sig, prog, gen.Canon{}, true); !ok {
